@@ -17,6 +17,7 @@ import KojenVerif.Model.Uml
 import KojenVerif.Lemmas.EngineWF
 import KojenVerif.Lemmas.EngineNestedWF
 import KojenVerif.Lemmas.EngineProto
+import KojenVerif.Lemmas.EngineSecondWF
 /-
   Line-protocol driver: one JSON object per input line, one JSON object per output line.
   Run with `lake env lean --run Driver/Main.lean`.  The harness pipes the same inputs to the
@@ -631,7 +632,12 @@ def handle (j : Json) : Except String Json := do
     let mut pstOk := 0
     let mut pblocks := 0
     let mut pblocksOk := 0
+    let mut filesN := 0
+    let mut filesOk := 0
     for items0 in files do
+      filesN := filesN + 1
+      -- the file as the second filtering receives it (STATE_0 still to be replaced)
+      if Engine.secondOKB m (Spec.load globals items0) then filesOk := filesOk + 1
       let items := Spec.load (globals ++ st0) items0
       for it in items do
         match it with
@@ -678,7 +684,8 @@ def handle (j : Json) : Except String Json := do
                       ("chunks", n chunks), ("chunks_ok", n chunksOk),
                       ("pgt_lines", n pgtLines), ("pgt_lines_ok", n pgtOk), ("pgt_lines_with_alternative", n pgtAlt),
                       ("pst_blocks", n pstBlocks), ("pst_blocks_ok", n pstOk),
-                      ("struct_blocks", n pblocks), ("struct_blocks_ok", n pblocksOk)])
+                      ("struct_blocks", n pblocks), ("struct_blocks_ok", n pblocksOk),
+                      ("files", n filesN), ("files_second_filtering_ok", n filesOk)])
   | "vpp" => do
     let rows3 (k : String) : Except String (List (List Str)) := do
       (← (← j.getObjVal? k).getArr?).toList.mapM asStrs
